@@ -30,12 +30,12 @@ func oObj(kv ...interface{}) *OJ {
 	}
 	return o
 }
-func oArr(v ...*OJ) *OJ    { return &OJ{K: 'a', Vals: v} }
-func oStr(s string) *OJ    { return &OJ{K: 's', S: s} }
-func oNum(s string) *OJ    { return &OJ{K: 'n', S: s} }
-func oBool(b bool) *OJ     { return &OJ{K: 'b', B: b} }
-func oNull() *OJ           { return &OJ{K: 'z'} }
-func oInt(i int64) *OJ     { return oNum(strconv.FormatInt(i, 10)) }
+func oArr(v ...*OJ) *OJ { return &OJ{K: 'a', Vals: v} }
+func oStr(s string) *OJ { return &OJ{K: 's', S: s} }
+func oNum(s string) *OJ { return &OJ{K: 'n', S: s} }
+func oBool(b bool) *OJ  { return &OJ{K: 'b', B: b} }
+func oNull() *OJ        { return &OJ{K: 'z'} }
+func oInt(i int64) *OJ  { return oNum(strconv.FormatInt(i, 10)) }
 
 // Clone deep-copies the tree.
 func (o *OJ) Clone() *OJ {
